@@ -18,6 +18,7 @@ def std(quick_parts=16, thorough_extra=None):
 
 PROPS = {
     "C09": dict(
+        technique='runtime monitoring: 128-bit index-map oracle, exhaustive enumeration of residues p mod 2N at run time, ASan+UBSan',
         exhaustive_subspaces=dict(
             quick=["every residue p mod 2N for every N = 1..8192 on all 11 coefficient kernels (7 for even p) with the injective probe a_i = i+1 "
                    "(the maps are data-independent signed permutations, so one injective probe determines them); counts per N in monitors.exhaustive_residues:*"],
@@ -33,6 +34,7 @@ PROPS = {
                      "determines the signed permutation", ASAN_NOTE],
     ),
     "C05": dict(
+        technique='runtime monitoring: 1024-bit big-integer digit oracle on every normalisation call, exhaustive small-k windows, canaries, ASan+UBSan',
         exhaustive_subspaces=dict(
             quick=["znx_normalize: all (in, carry_in) pairs of the window [-2^(k+1), 2^(k+1)]^2 for k = 1,2,3 x 6 presence shapes x 7 aliasings",
                    "vec_znx_normalize_base2k: all limb-value combinations of the window for k = 1,2,3, a_size <= 3, res_size <= a_size+1"],
@@ -47,6 +49,7 @@ PROPS = {
                      "carry_in of the primitive restricted to |c| < 2^(63-k) (digit + carry cannot overflow int64)", ASAN_NOTE],
     ),
     "C08": dict(
+        technique='runtime monitoring: per-limb definition oracle, ASan-poisoned stride padding and guard bands with canaries, input snapshots',
         runs=std(),
         rule=("case = one call (operation, level module/kernel, module type, dispatch, N, res/a/b limb counts, stride "
               "choices, extra-limb flag); distinct by descriptor hash; non-trivial when res_size >= 1 and at least one "
@@ -56,6 +59,7 @@ PROPS = {
                      "stride padding and guard bands are ASan-poisoned and carry canaries; inputs are byte-snapshotted", ASAN_NOTE],
     ),
     "C01": dict(
+        technique='runtime monitoring: exact negacyclic-product oracle on every FFT64 product executed under ASan+UBSan, both dispatch configurations (hook H1), feedback-directed sign-flip search',
         runs=std(),
         rule=("case = one product through one FFT64 path (small single product | svp_prepare+svp_apply_dft+idft | "
               "...+idft_tmp_a) for (N, operand family, dispatch, res/a limb counts, stride, repetition); distinct by "
@@ -67,6 +71,7 @@ PROPS = {
                      "budget E evaluated in long double from the actual operands and inflated by 2^-40", ASAN_NOTE],
     ),
     "C02": dict(
+        technique='runtime monitoring: exact per-column oracle over the full shape box, NaN-prefilled exact-size scratch, canaries, ASan+UBSan',
         runs=std(),
         rule=("case = one (N, nrows, ncols, a_size, res_size, a stride, dispatch, operand magnitude class) shape: "
               "prepare + both apply entry points + inverse DFT; distinct by descriptor hash; non-trivial when "
@@ -77,6 +82,7 @@ PROPS = {
                      "budgets of the rows + 1/2", "scratch buffers are exactly *_tmp_bytes and NaN-prefilled", ASAN_NOTE],
     ),
     "C10": dict(
+        technique='runtime monitoring: 128-bit modular / CRT oracle over ref and AVX2 kernels, non-canonical and extremal operands, ASan+UBSan',
         runs=std(),
         rule=("case = one product-kernel call (kernel, ref/avx2, ell, operand families of x and y) or one batch of "
               "conversions / block copies (nn, repetition); distinct by descriptor hash; non-trivial when ell >= 1 or "
@@ -86,6 +92,7 @@ PROPS = {
                      "constants recomputed by the oracle", ASAN_NOTE],
     ),
     "C03": dict(
+        technique='runtime monitoring: modular-arithmetic oracle (round trip, linearity, convolution, Horner at the observed roots) on real NTT executions with tables created in interleaved orders, ASan+UBSan',
         runs=std(),
         rule=("case = (n, lane family, table set, repetition) transform batch (round trip + linearity + convolution), "
               "an evaluation-map check, or one module-level dft/idft call (N, a/dft/res limb counts, stride, variant); "
@@ -97,6 +104,7 @@ PROPS = {
                      "tables of all 17 sizes are alive together, created large-to-small and small-to-large", ASAN_NOTE],
     ),
     "C04": dict(
+        technique='runtime monitoring: hook H2 stage trace checked online by a 128-bit shadow execution with operand-fit predicates, worst-case operand workloads, hill-climbing on observed maxima, ASan+UBSan',
         runs=std(thorough_extra=[
             dict(cfg="plain", tag="q31", defs="-DSPQLIOS_Q120_USE_31_BIT_PRIMES", parts=16, tier="quick", info=True),
             dict(cfg="plain", tag="q29", defs="-DSPQLIOS_Q120_USE_29_BIT_PRIMES", parts=16, tier="quick", info=True)]),
@@ -110,6 +118,7 @@ PROPS = {
                      "default 30-bit prime set", ASAN_NOTE],
     ),
     "C06": dict(
+        technique='runtime monitoring: long-double FFT oracle validated by float128 Horner evaluation, every m and implementation incl. assembly leaves, bitwise repeat + table hash, ASan+UBSan (+memcheck in thorough)',
         runs=plan([dict(cfg="asan", parts=16)],
                   [dict(cfg="asan", parts=16, tier="quick"), dict(cfg="plain", parts=16),
                    dict(cfg="plain", parts=8, tier="quick", mode="memcheck",
@@ -126,6 +135,7 @@ PROPS = {
                      "memcheck (thorough tier) instruments their memory accesses", ASAN_NOTE],
     ),
     "C14": dict(
+        technique='runtime monitoring: exact float128 rounding oracle, boundary and dense near-tie sweeps over every divisor / bound / overhead and variant, ASan+UBSan',
         runs=std(),
         rule=("case = one conversion call (conversion, variant table-native|table-generic|ref|accelerated kernel, m, "
               "divisor 2^j, log2overhead, repetition) on 2m generated values (exponent sweep, domain boundary, near-ties, "
@@ -138,6 +148,7 @@ PROPS = {
                      "fill their vector step (the library itself selects them for m >= 8)", ASAN_NOTE],
     ),
     "C17": dict(
+        technique='runtime monitoring: layout-definition and long-double complex-arithmetic oracles with analytic rounding budgets, ASan+UBSan',
         runs=std(),
         rule=("case = one kernel batch: extract/save (m, ref|avx, nrows, row stride, contiguous|strided) over all or "
               "sampled block indices; layout round trip (m, variant); dot product (1|2 columns, ref|avx2, nrows, value "
@@ -150,6 +161,7 @@ PROPS = {
                      "constrained (the library uses 0,2,1,3); the round trip and the re/im pairing are", ASAN_NOTE],
     ),
     "C13": dict(
+        technique='runtime monitoring: aliased-vs-separate differential (bitwise) for every supported aliasing pattern, ASan+UBSan',
         runs=std(),
         rule=("case = one aliasing pattern exercised once (operation+pattern, N, module type, dispatch, res/aliased/other "
               "limb counts, strides, p class, repetition): the out-of-place call on a copy and the aliased call; "
@@ -160,6 +172,7 @@ PROPS = {
                      "the aliased operand's limb count", "bitwise equality with the out-of-place call (same kernel runs)", ASAN_NOTE],
     ),
     "C11": dict(
+        technique='sanitizers: ASan+UBSan on exact-size guard-banded poisoned buffers, canaries, differential pre-fill, valgrind memcheck definedness, LeakSanitizer',
         runs=plan([dict(cfg="asan", parts=16),
                    dict(cfg="asan", parts=4, mode="leaks", env={"ASAN_OPTIONS": "abort_on_error=1:detect_leaks=1:leak_check_at_exit=0:allocator_may_return_null=1:handle_abort=0"}),
                    dict(cfg="plain", parts=8, mode="memcheck", wrapper=["valgrind", "-q", "--error-exitcode=97", "--errors-for-leak-kinds=none"], timeout=1800)],
@@ -222,6 +235,7 @@ PROPS = {
         technique="runtime monitoring: source snapshots + table hashing under ASan, and write-protected (mprotect) tables",
     ),
     "C07": dict(
+        technique='runtime monitoring: pairwise differential of every accelerated kernel vs its reference twin and of the public API under both dispatch configurations (hook H1), also under 4 concurrent threads, ASan+UBSan',
         runs=std(),
         rule=("case = one pair comparison (accelerated catalogue entry ~ its reference twin, N, argument seed) or one "
               "dispatch comparison (public entry point under generic-C and accelerated dispatch, N, seed); both members "
